@@ -9,7 +9,7 @@ the specification's text, a second program loads the file with the matching opti
 with the same program-text facts inside Datalog (equality joins, only counts are printed, so no writer is involved in
 observing the reader).  Representable tuples must round-trip; tuples the specification calls unrepresentable are not
 judged (outcome classes are counted as observations)."""
-import concurrent.futures as cf, json, os, random, re, shutil, time
+import concurrent.futures as cf, threading, json, os, random, re, shutil, time
 from .. import build, iofmt as io, known, tlc
 from ..common import SPEC, NCPU, Result, workdir, seed, log, VERIF
 from ..evidence import finish
@@ -58,8 +58,10 @@ def parse_res(out):
     return r
 
 NPROC = [0]
+_plock = threading.Lock()
 def do_write(fmt, vecs, d, tag):
-    NPROC[0] += 1
+    with _plock:
+        NPROC[0] += 1
     os.makedirs(os.path.join(d, "out"), exist_ok=True)
     p = os.path.join(d, "write_%s.dl" % tag)
     with open(p, "w") as f:
@@ -67,7 +69,8 @@ def do_write(fmt, vecs, d, tag):
     return p, io.souffle(p, out=os.path.join(d, "out"), args=ARGS)
 
 def do_read(fmt, vecs, d, tag, dump=False):
-    NPROC[0] += 1
+    with _plock:
+        NPROC[0] += 1
     p = os.path.join(d, "read_%s.dl" % tag)
     with open(p, "w") as f:
         f.write(reader_program(fmt, vecs, os.path.join(d, "out"), dump))
@@ -286,6 +289,7 @@ def run(tier, replay=None):
         nun += len(keep)
     res.cov.update({"vectors": len(vecs), "vectors_representable": sum(1 for v in vecs if v["rep"]), "unrepresentable_run": nun,
                     "formats": [fmt_name(f) for f in fmts.values()], "relation_shapes": sorted({v["k"] for v in vecs})})
+    seen = set()
     pool = cf.ThreadPoolExecutor(NCPU)
     try:
         futs = {key: pool.submit(group_job, fmts[key[0]], g, os.path.join(wd, "f%d_%s" % key)) for key, g in groups.items()}
@@ -300,9 +304,11 @@ def run(tier, replay=None):
                 judge(res, kf, fmt, v, o, d, o["files"])
                 ok = o["write"] == "ok" and o["read"] == "ok" and o["cmp"] == (0, 0)
                 clean = clean and (ok or not v["rep"])
-                if v["rep"] and fmt["kind"] == "text" and (not ok or rng.random() < 0.002):
-                    res.sample({"format": fmt_name(fmt), "tuple": show(v), "spec_text": io.text(v["txt"]),
-                                "real_text": o.get("real"), "round_trip": ok}, limit=8)
+                skey = (fmt["name"], fmt["rfc"], v["k"], ok)
+                if v["rep"] and ((not ok and skey not in seen and len(seen) < 5) or (ok and rng.random() < 0.003)):
+                    seen.add(skey)
+                    res.sample({"format": fmt_name(fmt), "tuple": show(v), "spec_text": io.text(v["txt"]) if fmt["kind"] == "text" else None,
+                                "real_text": o.get("real"), "round_trip": ok}, limit=12)
             res.count("relation_groups")
             if clean:
                 res.count("relation_groups_clean")
